@@ -356,7 +356,7 @@ func c12Hetero(c *ev.Ctx) {
 // c12Long reads chains of more than a thousand small streams (with paddings 0, 4, 8 chosen by
 // the seed) through one Reader: whatever a reader carries from stream to stream must not add up.
 func c12Long(c *ev.Ctx, pool []poolStream) {
-	nch := 2
+	nch := 4
 	if thorough(c) {
 		nch = 12
 	}
@@ -368,6 +368,7 @@ func c12Long(c *ev.Ctx, pool []poolStream) {
 		}
 		r := prng.New(c.Seed, 128, uint64(i))
 		var b, all []byte
+		padTotal := 0
 		n := 1200 + r.Intn(600)
 		for k := 0; k < n; k++ {
 			p := pool[r.Intn(len(pool))]
@@ -376,8 +377,29 @@ func c12Long(c *ev.Ctx, pool []poolStream) {
 			}
 			b = append(b, p.B...)
 			all = append(all, p.Content...)
-			b = append(b, make([]byte, r.Pick(0, 0, 4, 8))...)
+				pad := r.Pick(0, 0, 4, 8)
+			if i%2 == 1 {
+				// the padding skipped by one reader adds up to a few MiB
+				pad = r.Pick(0, 4, 1024, 2048, 4096, 4*r.Intn(1500))
+			}
+			b = append(b, make([]byte, pad)...)
+			padTotal += pad
 		}
+		if i >= 2 && i%4 >= 2 {
+			// one very long gap (tens of MiB of padding) in the middle of the chain
+			m := pool[r.Intn(len(pool))]
+			gap := r.Pick(3<<20, 24<<20, 40<<20, 48<<20+4)
+			if i == 2 {
+				gap = 3 << 20
+			} else if i == 3 {
+				gap = 40 << 20
+			}
+			b = append(b, make([]byte, gap)...)
+			b = append(b, m.B...)
+			all = append(all, m.Content...)
+			padTotal += gap
+		}
+		c.Count("long_chain_padding_bytes", int64(padTotal))
 		out, err := libXZ(b, xz.ReaderConfig{DictCap: []int{0, 4096}[i%2]})
 		c.Eval(fmt.Sprintf("long-chain-%d", i%2), true)
 		c.Count("long_chains", 1)
